@@ -13,6 +13,7 @@ import ast
 import copy
 from typing import Dict, List, Optional, Set
 
+from .core import src
 from .index import Func, Module, RepoIndex
 
 
@@ -833,10 +834,12 @@ def inline_methods_by_name(index: RepoIndex, expr: ast.AST, depth: int = 3,
     by_name: Dict[str, List[Func]] = {}
     module_aliases = {n for mod in index.modules.values() for n, imp in mod.imports.items()
                       if imp[0] == 'module'}
+    by_class: Dict[str, list] = {}
     for mod in index.modules.values():
         if not mod.relpath.startswith('gym_gridverse/'):
             continue
         for c in mod.classes.values():
+            by_class.setdefault(c.name, []).append(c)
             for cc in [c] + list(c.inner.values()):
                 for mn, m in cc.methods.items():
                     by_name.setdefault(mn, []).append(m)
@@ -851,16 +854,29 @@ def inline_methods_by_name(index: RepoIndex, expr: ast.AST, depth: int = 3,
                 return c
             if isinstance(c.func.value, ast.Name) and c.func.value.id in module_aliases:
                 return c        # `np.tile(..)`: a library function, not a method
-            if new_only:
-                from .pinned_names import METHODS as _PM
-                if c.func.attr in _PM:
-                    return c    # a method of the pinned tree is vocabulary
-            cands = by_name.get(c.func.attr, [])
-            if len(cands) != 1:
-                return c
-            m = cands[0]
+            static = False
+            if isinstance(c.func.value, ast.Name) and c.func.value.id in by_class and \
+                    len(by_class[c.func.value.id]) == 1:
+                # `Area.from_shape(..)`: the class is named, the method need not be unique
+                m = by_class[c.func.value.id][0].methods.get(c.func.attr)
+                if m is None or [src(d) for d in m.node.decorator_list] != ['staticmethod']:
+                    return c
+                if new_only:
+                    from .pinned_names import PARAMS as _PP
+                    if f'{m.module.relpath}:{m.short}' in _PP:
+                        return c
+                static = True
+            else:
+                if new_only:
+                    from .pinned_names import METHODS as _PM
+                    if c.func.attr in _PM:
+                        return c    # a method of the pinned tree is vocabulary
+                cands = by_name.get(c.func.attr, [])
+                if len(cands) != 1:
+                    return c
+                m = cands[0]
             fn = m.node
-            if fn.decorator_list or fn.args.vararg or fn.args.kwarg or \
+            if (fn.decorator_list and not static) or fn.args.vararg or fn.args.kwarg or \
                     any(isinstance(a, ast.Starred) for a in c.args) or \
                     any(k.arg is None for k in c.keywords):
                 return c
@@ -875,12 +891,15 @@ def inline_methods_by_name(index: RepoIndex, expr: ast.AST, depth: int = 3,
             free_ = {n.id for n in ast.walk(e) if isinstance(n, ast.Name)} - set(params)
             if free_ & (set(m.module.assigns) | set(m.module.functions)):
                 return c
-            bound: Dict[str, ast.AST] = {params[0]: c.func.value}
-            bound.update(zip(params[1:], c.args))
+            if static:
+                bound: Dict[str, ast.AST] = dict(zip(params, c.args))
+            else:
+                bound = {params[0]: c.func.value}
+                bound.update(zip(params[1:], c.args))
             for k in c.keywords:
                 bound[k.arg] = k.value
             defaults = m.param_defaults()
-            for p in params[1:] + [a.arg for a in fn.args.kwonlyargs]:
+            for p in (params if static else params[1:]) + [a.arg for a in fn.args.kwonlyargs]:
                 if p not in bound:
                     if defaults.get(p) is None:
                         return c
